@@ -1,7 +1,7 @@
 """C15 -- changelog parsing is total and strictness-consistent; output is a normal form."""
 import ast
 
-from .. import rx
+from .. import rx, strlang
 from ..core import AnalysisError, norm, walk_no_nested, calls_in
 from .changelogmodel import Model, M
 
@@ -387,6 +387,27 @@ def r5_normal_form(rep, src):
     # every layout the writer has for a complete block is header / stored change lines / trailer / stored trailing lines
     for k_, t_ in enumerate(terms):
         C04.r4_layout(px, C04.cut_lines(t_), f, ' (content-dependent layout %d)' % (k_ + 1) if k_ else '')
+    # an attribute that is set is written: in every world in which _format returns, each optional attribute that is present has
+    # its slot in the text (else the parsed-back block lacks what the object holds -- e.g. author/date assigned to a block that
+    # was parsed without trailer)
+    _f, worlds, _r = C04.extract_block_template(src, px, all_terms='worlds')
+    optional = ['self.package', 'self._raw_version', 'self.distributions', 'self.urgency', 'self.author', 'self.date']
+    lost = None
+    nw = 0
+    for dec, term in worlds:
+        nw += 1
+        have = set(strlang.slots_of(term))
+        for a_ in optional:
+            # (an attribute the world did not even look at is written in none of its instances, set or not)
+            if dec.get(('present', a_)) is not False and a_ not in have and lost is None:
+                lost = (a_, {k[1]: v for k, v in dec.items() if k[0] in ('present', 'bool')})
+    if lost:
+        rep.fail('C15.R5', f.site, 'an attribute that is set is written', 'in the configuration %s the block is formatted without %s even when it is set: the parsed-back block '
+                 'lacks it (the output is not a normal form of the object)' % (lost[1], lost[0]), where=f.where)
+    elif nw < 4:
+        raise AnalysisError('%s: only %d formatting worlds' % (f.site, nw))
+    else:
+        rep.ok('C15.R5', f.site, 'an attribute that is set is written', '%d configurations in which _format returns' % nw)
     if len(lines) < 3 or lines[0][0] != 'line':
         raise AnalysisError('%s: block template has no header line' % f.site)
     C04.r1_header(px, src, f, lines[0][1], alpha)
